@@ -489,6 +489,19 @@ func c08StaticLeader(c *Ctx) {
 			return true
 		})
 	}
+	if byName == "" {
+		// an extremum of the candidate names
+		for h := range scope {
+			for _, ce := range callsIn(h.Body) {
+				switch callName(ce) {
+				case "slices.Min", "slices.Max", "slices.MinFunc", "slices.MaxFunc", "min", "max":
+					if strings.Contains(nospace(ce), "maps.Keys(") || callName(ce) == "slices.Min" || callName(ce) == "slices.Max" {
+						byName = g.Where(ce.Pos())
+					}
+				}
+			}
+		}
+	}
 	r.Check(byName == "", "C08-h", "G.builder.findLeader:leader-among-several-candidates", "", g.Where(fd.Pos()), "no choice among several candidates by name",
 		"the leader of a component is the candidate with the smallest name ("+byName+"), whichever rule the grammar enters the component through: `S <- B !.; B <- A 'x' / 'y'; A <- B / 'z'` enters through B, A is made the leader, and `yx` - which B <- B 'x' / 'z' 'x' / 'y' matches - is rejected")
 }
